@@ -48,4 +48,18 @@ def stepNarrow (s : NSt) (i : Nat) : NSt :=
 
 def runNarrow (s : NSt) (sched : List Nat) : NSt := sched.foldl stepNarrow s
 
+/-! ### `monitorTopic`: what is handed on from the pairwise topic -/
+
+/-- `monitorTopic` of the channel opened for peer `p` by `self`, over the messages `(sender, payload)`
+the topic carries, in order: only the messages of `p` are handed on, attributed to `p` (after the
+`fix:` commit: the filter used to drop `self`'s messages only — anybody may publish on the topic,
+whose name is derived from two public peer ids) -/
+def monitor (p : Nat) (msgs : List (Nat × List Nat)) : List (Nat × List Nat) :=
+  (msgs.filter (fun m => m.1 == p)).map (fun m => (p, m.2))
+
+/-- the filter as it was: everything that is not our own is attributed to `p` -/
+def monitor0 (self p : Nat) (msgs : List (Nat × List Nat)) : List (Nat × List Nat) :=
+  (msgs.filter (fun m => m.1 != self)).map (fun m => (p, m.2))
+
 end Orbit.Connect
+
